@@ -134,6 +134,7 @@ impl Local {
 /// Run one case; a panic of the harness's own code (never expected) must not take the whole
 /// run down: it is recorded and turns the verdict into INCONCLUSIVE.
 fn guarded_case<F: Fn(u64, &mut Local)>(f: &F, case: u64, l: &mut Local) {
+    crate::logmon::for_case(case);
     let r = std::panic::catch_unwind(std::panic::AssertUnwindSafe(|| f(case, l)));
     if r.is_err() {
         let site = crate::api::last_panic_site();
@@ -159,6 +160,7 @@ where
     }
     let next = AtomicU64::new(0);
     let merged = Mutex::new(Local::default());
+    let log_before = crate::logmon::observed();
     let chunk = (n / (ctx.threads as u64 * 16)).clamp(1, 64);
     std::thread::scope(|s| {
         for _ in 0..ctx.threads {
@@ -187,6 +189,8 @@ where
         }
     });
     let mut l = merged.into_inner().unwrap();
+    let log_after = crate::logmon::observed();
+    l.add("log.records-formatted-in-cases-with-a-logger", log_after.0 - log_before.0);
     l.samples.sort_by_key(|(c, _)| *c);
     l.samples.truncate(4);
     l.violations.sort_by_key(|v| v.case);
